@@ -26,7 +26,6 @@ import (
 	"math/rand/v2"
 	"os"
 	"runtime/debug"
-	"runtime/pprof" // DEVKNOB
 	"strconv"
 	"strings"
 	"sync"
@@ -1543,12 +1542,6 @@ func runC12(c *Ctx) {
 	nTexts := c.N(20000, 1000000)
 	perText := c.N(16, 10) // option lists per text; each with all 5 entry points => 80 / 50 calls per text
 	enumLen := c.N(3, 4)
-	if v := os.Getenv("C12_TEXTS"); v != "" { // DEVKNOB
-		nTexts, _ = strconv.Atoi(v) // DEVKNOB
-		f, _ := os.Create("/tmp/c12-cpu.prof") // DEVKNOB
-		pprof.StartCPUProfile(f) // DEVKNOB
-		defer pprof.StopCPUProfile() // DEVKNOB
-	} // DEVKNOB
 
 	// fixed boundary texts (evaluated by worker 0 with many option lists)
 	var fixed [][]byte
